@@ -237,9 +237,18 @@ def cases(tier):
     mut = []
     for p in pdus:
         hl = 4 + 2 * p[1][0] + p[1][1]
-        mut += [(("pdu",) + p, (1, 2)), (("pdu",) + p, (0, 3)), (("pdu",) + p, (hl, hl + 1)), (("pdu-factory",) + p, (0, 3, hl))]
-        if tier == "thorough":
-            mut += [(("pdu",) + p, (hl + 1, hl + 2, hl + 5)), (("pdu",) + p, tuple(range(hl + 2, hl + 6)))]
+        if not p[1][2]:
+            mut += [(("pdu",) + p, (1, 2)), (("pdu",) + p, (0, 3)), (("pdu",) + p, (hl, hl + 1))]
+            # through the factory the mutated type bit / directive code dispatches into all eight decoders: kept to the short
+            # PDUs (the long ones explode into thousands of paths; the dispatch itself is covered by the arbitrary-buffer cases)
+            if p[0] in ("ack", "prompt", "keepalive") or (tier == "thorough" and p[0] in ("eof", "finished", "filedata")):
+                mut += [(("pdu-factory",) + p, (0, hl))]
+            if tier == "thorough":
+                mut += [(("pdu",) + p, (hl + 1, hl + 2, hl + 5)), (("pdu",) + p, tuple(range(hl + 2, hl + 6)))]
+        else:
+            # with a CRC trailer almost every mutation fails the checksum; reaching the accepting paths means inverting the
+            # CRC, which is costly: only the length octets are mutated here
+            mut += [(("pdu",) + p, (1, 2))]
     mut += [(("tc", 2), (4, 5)), (("tc", 2), (0, 6)), (("tm", 7, 1), (4, 5)), (("tm", 7, 1), (0, 6)), (("srv1", 6), (4, 5)), (("srv1", 6), (8,)),
             (("tlv", 3), (0, 1)), (("lv", 2), (0,)), (("fsresp",), (1, 2, 3)), (("fsresp",), (3, 5)), (("fsreq",), (1, 2, 3)), (("entity", 2), (0, 1)),
             (("fault",), (0, 1)), (("uslp-frame", "fixed", 2, 2, 1, 1, 1), (4, 5, 6)), (("uslp-frame", "variable", 0, 2, 1, 0, 2), (4, 5, 6)),
